@@ -1,10 +1,11 @@
 #!/bin/sh
-# one line per benign patch: silent / EXIT2 (analysis broken, no violation) / ALARM (false VIOLATION)
+# one line per benign patch: silent / UNDEC (exit 0, some obligations reported undecided) / EXIT2 (analysis broken) / ALARM (false VIOLATION)
 cd /verif
 for p in benign/*.diff; do
   id=$(basename $p | cut -d- -f1)
   out=$(bin/try_patch.sh $p $id 2>&1)
   if echo "$out" | grep -q "^VIOLATION"; then echo "ALARM  $(basename $p .diff)  $(echo "$out" | grep -m1 '^violation' | cut -c12-120)";
   elif echo "$out" | grep -q "ANALYSIS-BROKEN"; then echo "EXIT2  $(basename $p .diff)  $(echo "$out" | grep -m1 'ANALYSIS' | cut -c1-140)";
+  elif echo "$out" | grep -q "^UNDECIDED"; then echo "UNDEC  $(basename $p .diff)  $(echo "$out" | grep -m1 '^UNDECIDED' | cut -c1-140)";
   else echo "silent $(basename $p .diff)"; fi
 done
